@@ -309,6 +309,14 @@ func replaySched(id string) func(v Violation) (bool, string) {
 		}
 		for _, tier := range []string{"quick", "thorough"} {
 			scs := schedScenarios[id](tier)
+			if idx >= len(scs) || scs[idx].Name != v.Extra["scenario"].(string) {
+				// the scenario list may have grown since the artefact was written: find the scenario by name
+				for k := range scs {
+					if scs[k].Name == v.Extra["scenario"].(string) {
+						idx = k
+					}
+				}
+			}
 			if idx < len(scs) && scs[idx].Name == v.Extra["scenario"].(string) {
 				x := scs[idx].Run(ch, true)
 				for _, l := range x.Log {
